@@ -1420,6 +1420,37 @@ func (e *engine) observe() {
 	}
 }
 
+// heldFramesIntact re-encodes the frame objects the handler received and
+// compares them with their encoding at the moment of delivery.
+func (e *engine) heldFramesIntact(cl *client, hSends []hSend, hOthers []hOther) bool {
+	q := e.q
+	for i, h := range hSends {
+		if h.ref == nil {
+			continue
+		}
+		if b, err := q.codec.EncodeFrame(h.ref, h.ver); err != nil || string(b) != string(h.enc) {
+			q.fail("handler-frames-mismatch", "changed-after-delivery", fmt.Sprintf("c%d: SEND #%d (seq %d) read %s when the handler received it and reads %s now, after the server processed more of the stream", cl.k, i, h.seq, short(h.enc), short(b)), nil)
+			return false
+		}
+	}
+	for i, h := range hOthers {
+		if h.ref == nil {
+			continue
+		}
+		if b, err := q.codec.EncodeFrame(h.ref, h.ver); err != nil || string(b) != string(h.enc) {
+			if h.typ == frame.EVENT {
+				// see the report: EventPacket.Data is not detached by the adapter; no handler
+				// in the repository keeps an EVENT beyond the call
+				q.r.Probe("event_data_aliases_read_buffer")
+				continue
+			}
+			q.fail("handler-frames-mismatch", "changed-after-delivery", fmt.Sprintf("c%d: frame #%d (%v) read %s when the handler received it and reads %s now, after the server processed more of the stream", cl.k, i, h.typ, short(h.enc), short(b)), nil)
+			return false
+		}
+	}
+	return true
+}
+
 func (e *engine) totalHSends() int {
 	n := 0
 	for _, cl := range e.q.clients {
@@ -1633,6 +1664,13 @@ func (e *engine) observeConn(cl *client, step int) {
 		}
 	}
 	cl.nHOthers = len(hOthers)
+
+	// 3b. a handler may keep a frame: whenever the server decoded more of the stream
+	// (its buffers moved, the transport's read buffer was reused) every frame handed
+	// over earlier must still read the same
+	if (len(decodes) > 0 || e.final) && !e.heldFramesIntact(cl, hSends, hOthers) {
+		return
+	}
 
 	// 4. frames written to the transport
 	for i := cl.nWrites; i < len(writes); i++ {
